@@ -890,7 +890,7 @@ fn phase4(history: &[String], keys: &[Key2], scenario: &J, report: &mut Report, 
                 return;
             }
         }
-        expected_redraws.push((model.current().iter().collect(), 6 + model.cursor + 1));
+        expected_redraws.push((model.current().iter().collect(), model.cursor));
         bytes.extend_from_slice(&key_bytes(key));
         let submitted = model.key(key, None);
         if matches!(key, Key2::Enter) {
